@@ -2,7 +2,7 @@
 // current working tree with -tags verif) and the extracted Coq model (the
 // oracle subprocess) on the same cases, evaluates the property predicates
 // directly on the implementation's outputs, and records what was covered.
-package main
+package core
 
 import (
 	"bufio"
@@ -16,7 +16,6 @@ import (
 	"os"
 	"os/exec"
 	"path/filepath"
-	"sort"
 	"strings"
 	"time"
 )
@@ -152,7 +151,7 @@ func (c *Ctx) Violation(class, what string, replay any) {
 			return // one replay per class is enough
 		}
 	}
-	name := fmt.Sprintf("%s-%s-%d.json", c.Prop, sanitize(class), c.Seed)
+	name := fmt.Sprintf("%s-%s-%d.json", c.Prop, Sanitize(class), c.Seed)
 	path := filepath.Join(c.ReplayDir, name)
 	b, _ := json.MarshalIndent(map[string]any{"property": c.Prop, "class": class, "what": what, "seed": c.Seed, "tier": c.Tier, "replay": replay}, "", " ")
 	_ = os.WriteFile(path, b, 0o644)
@@ -163,6 +162,9 @@ func (c *Ctx) Violation(class, what string, replay any) {
 // Mismatch reports model != implementation on a case where the property
 // predicate itself was not seen to fail.
 func (c *Ctx) Mismatch(corr, cs, impl, model string, replay any) {
+	if c.oracle == nil {
+		return
+	}
 	if c.silent {
 		c.failed = true
 		return
@@ -172,17 +174,17 @@ func (c *Ctx) Mismatch(corr, cs, impl, model string, replay any) {
 			return
 		}
 	}
-	c.Res.Mismatches = append(c.Res.Mismatches, Mismatch{Corr: corr, Case: trunc(cs, 2000), Impl: trunc(impl, 2000), Model: trunc(model, 2000), Replay: replay})
+	c.Res.Mismatches = append(c.Res.Mismatches, Mismatch{Corr: corr, Case: Trunc(cs, 2000), Impl: Trunc(impl, 2000), Model: Trunc(model, 2000), Replay: replay})
 }
 
-func trunc(s string, n int) string {
+func Trunc(s string, n int) string {
 	if len(s) > n {
 		return s[:n] + "..."
 	}
 	return s
 }
 
-func sanitize(s string) string {
+func Sanitize(s string) string {
 	var b strings.Builder
 	for _, r := range s {
 		if r >= 'a' && r <= 'z' || r >= 'A' && r <= 'Z' || r >= '0' && r <= '9' || r == '-' || r == '_' {
@@ -196,6 +198,9 @@ func sanitize(s string) string {
 
 // Ask sends one request line to the oracle and returns its one-line answer.
 func (c *Ctx) Ask(line string) string {
+	if c.oracle == nil {
+		return "NO-ORACLE"
+	}
 	c.Res.OracleCalls++
 	return c.oracle.Ask(line)
 }
@@ -243,7 +248,7 @@ func (o *Oracle) Ask(line string) string {
 		panic(fmt.Sprintf("oracle read: %v", err))
 	}
 	if err == io.EOF && s == "" {
-		panic("oracle died on request: " + trunc(line, 300))
+		panic("oracle died on request: " + Trunc(line, 300))
 	}
 	return strings.TrimRight(s, "\n")
 }
@@ -254,13 +259,9 @@ func (o *Oracle) Close() {
 	o.cmd.Wait()
 }
 
-type propFunc func(c *Ctx)
-
-var registry = map[string]propFunc{}
-var replayRegistry = map[string]func(c *Ctx, replay json.RawMessage){}
-
-func main() {
-	prop := flag.String("prop", "", "property id")
+// Main is the entry point of a property harness binary.
+func Main(propID string, f func(c *Ctx), rf func(c *Ctx, replay json.RawMessage)) {
+	prop := &propID
 	tier := flag.String("tier", "quick", "quick|thorough")
 	seed := flag.Int64("seed", 1, "PRNG seed")
 	oraclePath := flag.String("oracle", "", "path of the extracted oracle binary")
@@ -270,11 +271,6 @@ func main() {
 	replay := flag.String("replay", "", "replay file")
 	replays := flag.String("replays", "/verif/replays", "directory for replay files")
 	flag.Parse()
-	f, ok := registry[*prop]
-	if !ok {
-		fmt.Fprintln(os.Stderr, "unknown property", *prop)
-		os.Exit(2)
-	}
 	start := time.Now()
 	c := &Ctx{Prop: *prop, Tier: *tier, Seed: *seed, Rng: rand.New(rand.NewSource(*seed)), OutDir: *out, ReplayDir: *replays,
 		seen: map[[16]byte]struct{}{}, known: map[string]bool{}, vm: &strings.Builder{}, maxViol: 5,
@@ -315,7 +311,7 @@ func main() {
 			Replay json.RawMessage `json:"replay"`
 		}
 		_ = json.Unmarshal(b, &r)
-		if rf, ok := replayRegistry[*prop]; ok {
+		if rf != nil {
 			rf(c, r.Replay)
 		} else {
 			fmt.Fprintln(os.Stderr, "no replay function for", *prop)
@@ -325,11 +321,6 @@ func main() {
 		f(c)
 	}
 	c.Res.WallS = time.Since(start).Seconds()
-	keys := make([]string, 0, len(c.Res.Buckets))
-	for k := range c.Res.Buckets {
-		keys = append(keys, k)
-	}
-	sort.Strings(keys)
 	b, _ := json.MarshalIndent(c.Res, "", " ")
 	if err := os.WriteFile(filepath.Join(*out, "result.json"), b, 0o644); err != nil {
 		fmt.Fprintln(os.Stderr, err)
@@ -340,33 +331,37 @@ func main() {
 	}
 }
 
-func hexs(b []byte) string { return "x" + hex.EncodeToString(b) }
+// HasOracle tells whether the extracted model is available (it is not when
+// the model no longer builds; the direct predicates still run then).
+func (c *Ctx) HasOracle() bool { return c.oracle != nil }
+
+func Hexs(b []byte) string { return "x" + hex.EncodeToString(b) }
 
 // zs renders a signed integer for the oracle protocol (hex with sign).
-func zs(v int64) string {
+func Zs(v int64) string {
 	if v < 0 {
 		return fmt.Sprintf("-%x", uint64(-v)) // note: -MinInt64 wraps to itself as uint64: correct magnitude
 	}
 	return fmt.Sprintf("%x", v)
 }
 
-func us(v uint64) string { return fmt.Sprintf("%x", v) }
+func Us(v uint64) string { return fmt.Sprintf("%x", v) }
 
 // Coq syntax helpers for cases.v
-func coqZ(v int64) string {
+func CoqZ(v int64) string {
 	if v < 0 {
 		return fmt.Sprintf("(%d)%%Z", v)
 	}
 	return fmt.Sprintf("%d%%Z", v)
 }
-func coqN(v uint64) string { return fmt.Sprintf("%d%%N", v) }
-func coqBool(b bool) string {
+func CoqN(v uint64) string { return fmt.Sprintf("%d%%N", v) }
+func CoqBool(b bool) string {
 	if b {
 		return "true"
 	}
 	return "false"
 }
-func coqBytes(b []byte) string {
+func CoqBytes(b []byte) string {
 	var sb strings.Builder
 	sb.WriteString("[")
 	for i, x := range b {
@@ -378,4 +373,4 @@ func coqBytes(b []byte) string {
 	sb.WriteString("]")
 	return sb.String()
 }
-func coqList(xs []string) string { return "[" + strings.Join(xs, "; ") + "]" }
+func CoqList(xs []string) string { return "[" + strings.Join(xs, "; ") + "]" }
